@@ -228,6 +228,50 @@ class Walker:
         return ".".join(reversed(parts))
 
 
+def _run_alternatives(pat):
+    """[set of chars] per top-level alternative when the pattern is `X+|Y+|...` with X, Y single (escaped) characters or
+    bracket classes of literal characters; None for any other pattern (not decided)"""
+    alts, i, n = [], 0, len(pat)
+    while True:
+        if i >= n:
+            return None
+        if pat[i] == "[":
+            j, cs = i + 1, set()
+            if j < n and pat[j] == "^":
+                return None
+            while j < n and pat[j] != "]":
+                if pat[j] == "\\" and j + 1 < n:
+                    if pat[j + 1].isalnum():
+                        return None  # \s, \d, ... : a class escape
+                    cs.add(pat[j + 1])
+                    j += 2
+                elif j + 2 < n and pat[j + 1] == "-" and pat[j + 2] != "]":
+                    return None  # ranges are not needed here
+                else:
+                    cs.add(pat[j])
+                    j += 1
+            if j >= n:
+                return None
+            i = j + 1
+        elif pat[i] == "\\" and i + 1 < n and not pat[i + 1].isalnum():
+            cs = {pat[i + 1]}
+            i += 2
+        elif pat[i] not in "()|*+?{}^$.\\":
+            cs = {pat[i]}
+            i += 1
+        else:
+            return None
+        if i >= n or pat[i] != "+":
+            return None
+        i += 1
+        alts.append(cs)
+        if i == n:
+            return alts
+        if pat[i] != "|":
+            return None
+        i += 1
+
+
 def run(F, chk):
     R1 = chk.rule("R19.1", "every texture string slot GetTexturePathRefs can reach is cleaned by TrimTexturePaths under a guard set "
                            "that is a subset of the accessor's (the clean-up is never harder to reach than the slot it cleans)")
@@ -357,6 +401,149 @@ def run(F, chk):
                           "paths of a freshly loaded file are cleaned as if the option were off, and a later explicit clean-up "
                           "changes them again" % name)
     chk.floor(R2, 3)
+
+    # ---------------------------------------------------------------- R19.3
+    R3 = chk.rule("R19.3", "a clean-up step that collapses runs (`regex_replace(path, regex(P), c)` with a one-character replacement c and "
+                           "a pattern P made only of `+`-quantified single characters / classes) leaves no doubled c: P is one class "
+                           "that contains c — with two alternatives (`/+|\\\\+`) a run that mixes them yields two adjacent matches, i.e. "
+                           "`cc`, which is neither canonical ('single backslashes only') nor a fixed point of the clean-up")
+    trim = F.fn1("nifly::NifFile::TrimTexturePaths")
+    bodies = [trim] + [g for g in F.fns.values() if g.get("lambda_parent") == trim["id"]]
+    n3 = undecided = 0
+    for g in bodies:
+        for n in walk(g.get("body") or {}):
+            if not (n["k"] == "Call" and n.get("short") == "regex_replace" and len(n.get("args", [])) >= 3):
+                continue
+            pat = rep = None
+            for x in walk(n["args"][1]):
+                if x["k"] == "Lit" and x.get("lk") == "str" and pat is None:
+                    pat = x.get("sval")
+            r0 = n["args"][2]
+            while is_node(r0) and r0["k"] == "Cast":
+                r0 = r0["e"]
+            if is_node(r0) and r0["k"] == "Lit" and r0.get("lk") == "str":
+                rep = r0.get("sval")
+            if pat is None or rep is None or len(rep) != 1:
+                continue
+            alts = _run_alternatives(pat)
+            if alts is None:
+                undecided += 1
+                continue
+            n3 += 1
+            ok = len(alts) == 1 and rep in alts[0]
+            chk.instance(R3, ok=ok, sample={"pattern": pat, "replacement": rep, "alternatives": [sorted(a) for a in alts]})
+            if not ok:
+                why = ("its %d alternatives match runs of different characters separately, so a mixed run becomes %d copies" % (len(alts), len(alts))
+                       if len(alts) > 1 else "the replacement character itself is not part of the run, so a run next to it doubles it")
+                chk.violation("R19.3", "C19/R19.3:%s" % pat, where(g, n),
+                              "the clean-up replaces what `%s` matches by `%s`, but %s of `%s` in a row: the cleaned path is not "
+                              "canonical and cleaning it again changes it" % (pat, rep, why, rep))
+    chk.extra["R19.3_patterns_outside_the_run_subset"] = undecided
+    chk.floor(R3, 1)
+
+    # ---------------------------------------------------------------- R19.5
+    R5 = chk.rule("R19.5", "the patterns of the clean-up span arbitrary path bytes only with constructs that match every byte: a bare `.` "
+                           "(ECMAScript: any character except line terminators) is not among them — a path with a CR or LF inside "
+                           "(trim_whitespace removes them only at the ends) keeps whatever the `.`-span was meant to strip")
+    n5 = 0
+    for g in bodies:
+        for n in walk(g.get("body") or {}):
+            if not (n["k"] == "Construct" and "basic_regex" in (n.get("ct") or n.get("t") or "") and n.get("args")):
+                continue
+            a0 = n["args"][0]
+            while is_node(a0) and a0["k"] == "Cast":
+                a0 = a0["e"]
+            if not (is_node(a0) and a0["k"] == "Lit" and a0.get("lk") == "str" and a0.get("sval") is not None):
+                continue
+            pat = a0["sval"]
+            bare, i_, in_class = False, 0, False
+            while i_ < len(pat):
+                ch = pat[i_]
+                if ch == "\\":
+                    i_ += 2
+                    continue
+                if ch == "[":
+                    in_class = True
+                elif ch == "]":
+                    in_class = False
+                elif ch == "." and not in_class:
+                    bare = True
+                i_ += 1
+            n5 += 1
+            chk.instance(R5, ok=not bare, sample={"pattern": pat})
+            if bare:
+                chk.violation("R19.5", "C19/R19.5:%s" % pat, where(g, n),
+                              "the clean-up pattern `%s` spans path bytes with a bare `.`, which never matches CR or LF: for a path "
+                              "with a line break inside, what the span should cover (everything before the textures folder) is "
+                              "not matched and stays in the cleaned path" % pat)
+    chk.floor(R5, 4)
+
+    # ---------------------------------------------------------------- R19.4
+    R4 = chk.rule("R19.4", "the clean-up never throws on a position: in TrimTexturePaths, its lambdas and the repository helpers they call, "
+                           "a position handed to std::string::substr / erase / at / insert / replace is never the unchecked result of a "
+                           "find-family search (which is npos when nothing is found — `substr(npos)` throws std::out_of_range for a path "
+                           "made only of separators)")
+    POS_TAKERS = ("substr", "erase", "at", "insert", "replace")
+    scope4 = {g["id"] for g in bodies}
+    for g in list(bodies):
+        for t in F.reachable([g["id"]]):
+            h = F.fns.get(t)
+            if h and h.get("body") and (h.get("file") or "").startswith(("src/", "include/")) and not h.get("cls"):
+                scope4.add(t)
+    n4 = 0
+    for gid in sorted(scope4):
+        g = F.fns[gid]
+        finds = {}  # local id -> name, for locals initialised by a find-family call
+        for d in walk(g.get("body") or {}):
+            if d["k"] == "Decl":
+                for v in d.get("vars", []):
+                    i0 = v.get("init")
+                    while is_node(i0) and i0["k"] == "Cast":
+                        i0 = i0["e"]
+                    if is_node(i0) and i0["k"] == "Call" and (i0.get("short") or "").startswith(("find", "rfind")) and i0.get("ext"):
+                        finds[v["id"]] = v["name"]
+        tested = set()
+        for x in walk(g.get("body") or {}):
+            if x["k"] in ("Binary", "OpCall") and (x.get("op") in ("==", "!=")):
+                sides = [x["l"], x["r"]] if x["k"] == "Binary" else list(x.get("args", []))
+                txt = [show(y) for y in sides]
+                if any("npos" in t_ for t_ in txt):
+                    for y in sides:
+                        for r_ in walk(y):
+                            if r_["k"] == "Ref" and r_.get("id") in finds:
+                                tested.add(r_["id"])
+        for n in walk(g.get("body") or {}):
+            if not (n["k"] == "Call" and n.get("ext") and n.get("short") in POS_TAKERS and is_node(n.get("recv")) and n.get("args")):
+                continue
+            rt = (n["recv"].get("ct") or n["recv"].get("t") or "")
+            if "basic_string" not in rt and "std::string" not in rt:
+                continue
+            a0 = n["args"][0]
+            bad = None
+            wrapped = set()  # `s.find_last_not_of(x) + 1` is 0 when nothing is found (npos + 1 wraps): the usual right-trim idiom
+            for y in walk(a0):
+                if y["k"] == "Binary" and y["op"] == "+":
+                    for u, w in ((y["l"], y["r"]), (y["r"], y["l"])):
+                        u0 = u
+                        while is_node(u0) and u0["k"] == "Cast":
+                            u0 = u0["e"]
+                        if is_node(w) and w.get("val") == 1 and is_node(u0) and u0["k"] == "Call":
+                            wrapped.add(id(u0))
+            for y in walk(a0):
+                if id(y) in wrapped:
+                    continue
+                if y["k"] == "Call" and y.get("ext") and (y.get("short") or "").startswith(("find", "rfind")):
+                    bad = "the result of `%s` directly" % show(y)
+                elif y["k"] == "Ref" and y.get("id") in finds and y["id"] not in tested:
+                    bad = "`%s`, a search result that is never compared with npos" % y["name"]
+            n4 += 1
+            chk.instance(R4, ok=bad is None, sample={"fn": g["name"], "call": show(n)[:80]})
+            if bad:
+                chk.violation("R19.4", "C19/R19.4:%s:%s" % (g["name"].split("@")[0], n.get("short")), where(g, n),
+                              "the texture path clean-up calls %s with %s: when the search finds nothing the position is npos and the "
+                              "call throws std::out_of_range (a path made only of separators, or ending at the textures folder)" %
+                              (n.get("short"), bad))
+    chk.floor(R4, 1)
 
     chk.assumptions += ["the regex pipeline's canonical form, idempotence, terrain prefix handling and termination are string "
                         "semantics: not decided (an observed candidate: a capitalised `Textures\\\\` path in terrain mode is "
